@@ -759,6 +759,15 @@ where
                     break;
                 }
             }
+            if !confirmed && first.sig.starts_with("panic:") {
+                // a panic line in the server's log is a fact about the server whether or not
+                // this case brings it about again: it may be the late effect of an earlier case
+                // of the run (a timer, a reply in flight).  Reported as found.
+                let mut f = first.clone();
+                f.detail = format!("{} [seen once in this run and not reproduced by re-running this case alone: it may stem from an earlier case]", f.detail);
+                ctx.violation(prop.sub(), &f, &cases[i]);
+                return;
+            }
             if !confirmed {
                 ctx.add_transient();
                 ctx.count_excluded(&format!("{}:transient-not-reproduced:{}", prop.sub(), first.sig), 1);
